@@ -338,7 +338,7 @@ def _simplify_if_then_else(schema: dict):
         return side_schema
 
     if then_schema is None and else_schema is None:
-        return {}
+        return side_schema
 
     any_of = []
 
